@@ -1,7 +1,7 @@
 (* EXTRACT-Z: c17 run_c17 *)
 (* Executable entry point of the C17 correspondence: wire case -> wire result.
    first integer = machine: 1 IO state (Maths/IOState.v), 2 Geometry, 3 Sensors, 4 Mesh (Geom/*State.v). *)
-From OM Require Import Base.Lists Base.Wire Maths.IOState Geom.GeomState Geom.SensorsState Geom.MeshState.
+From OM Require Import Base.Lists Base.Wire Maths.IOState Maths.LinOpState Geom.GeomState Geom.SensorsState Geom.MeshState.
 Local Open Scope Z_scope.
 
 Definition getFmt : dec fmt :=
@@ -61,7 +61,7 @@ Definition getGdesc : dec gdesc :=
   do inv <- getVec; do ni <- getVec; do pa <- getN; do ti <- getN; do cb <- getN; do pr <- getN; do ne <- getBool; do hm <- getZ;
   ret {| d_status := st; d_verts := vs; d_nmeshes := nm; d_ndomains := nd; d_finalized := fin; d_marks := mk; d_inv_add := inv;
          d_noniso := ni; d_parts := pa; d_tri_idx := ti; d_cbt := cb; d_pairs := pr; d_nested := ne; d_headmat := hm |}.
-Definition getGop : dec gop := do o <- getN; do i <- getN; match o with O => ret (GLoad i) | _ => ret GHeadMat end.
+Definition getGop : dec gop := do o <- getN; do i <- getN; match o with O => ret (GLoad i) | 1%nat => ret GHeadMat | _ => ret GOther end.
 Definition run_geom (w : wire) : wire :=
   run_dec (do fx <- getBool; do W <- getList getGdesc; do ops <- getList getGop; ret (fx, W, ops)) w
     (fun '(fx, W, ops) => lenpref (g_trace fx W ops gst0)).
@@ -85,11 +85,20 @@ Definition run_mesh (w : wire) : wire :=
        let c := {| clear_flags := Nat.odd cb; clear_private_geometry := Nat.odd (Nat.div2 cb) |} in
        lenpref (m_trace c W ops mst0)).
 
+(* ---- machine 5: one Vector/Matrix/SymMatrix/SparseMatrix object ---- *)
+Definition getLdesc : dec ldesc :=
+  do st <- getZ; do nl <- getN; do nc <- getN; do es <- getList (do k <- getZ; do v <- getZ; ret (k, v));
+  ret {| l_status := st; l_nl := nl; l_nc := nc; l_entries := es |}.
+Definition run_linop (w : wire) : wire :=
+  run_dec (do fx <- getBool; do sp <- getBool; do W <- getList getLdesc; do ops <- getList getN; ret (fx, sp, W, ops)) w
+    (fun '(fx, sp, W, ops) => lenpref (l_trace fx sp W ops lst0)).
+
 Definition run_c17 (w : wire) : wire :=
   match w with
   | 1 :: w' => run_io w'
   | 2 :: w' => run_geom w'
   | 3 :: w' => run_sens w'
   | 4 :: w' => run_mesh w'
+  | 5 :: w' => run_linop w'
   | _ => [-1]
   end.
